@@ -84,6 +84,49 @@ def readRow {V : Type} (idx : Index) (vals : List V) (doc : Nat) : List V :=
 def read {V : Type} (idx : Index) (vals : List V) : Column V :=
   (List.range (idx.numDocs vals.length)).map (readRow idx vals)
 
+/-! ## range lookup through the index (Column::get_docids_for_value_range) -/
+
+/-- mirrors: ColumnIndex::docid_range_to_rowids — the rows of the flat values that belong to the
+documents `s..e` -/
+def Index.docRangeToRows (idx : Index) (s e : Nat) : Nat × Nat :=
+  match idx with
+  | .empty _ => (0, 0)
+  | .full => (s, e)
+  | .optional nn _ => (rankSpec nn s, rankSpec nn e)
+  | .multivalued nn _ starts => (starts.getD (rankSpec nn s) 0, starts.getD (rankSpec nn e) 0)
+
+/-- mirrors: ColumnValues::get_row_ids_for_value_range — the rows of `rs..re` (clamped to the number
+of values) whose value lies in the range, ascending (codec specific implementations are proved
+equal to this: `C08_bitunpacker_range_lookup`, `C08_range_rows_exact`) -/
+def rowsInRange {V : Type} (key : V → Nat) (vals : List V) (lo hi rs re : Nat) : List Nat :=
+  (List.range' rs (min re vals.length - rs)).filter
+    (fun r => (vals[r]?).any (fun v => decide (lo ≤ key v) && decide (key v ≤ hi)))
+
+/-- mirrors the inner `loop` of MultiValueIndexV2::select_batch_in_place: advance `cur` while the
+next start offset is `≤ pos` -/
+def advanceTo (starts : List Nat) (pos : Nat) : Nat → Nat → Nat
+  | 0, cur => cur
+  | fuel + 1, cur => if starts.getD (cur + 1) 0 > pos then cur else advanceTo starts pos fuel (cur + 1)
+
+/-- one rank of select_batch_in_place: (output so far, cursor, last written) -/
+def mvStep (starts : List Nat) (st : List Nat × Nat × Option Nat) (pos : Nat) : List Nat × Nat × Option Nat :=
+  let c := advanceTo starts pos starts.length st.2.1
+  (if st.2.2 = some c then st.1 else st.1 ++ [c], c, some c)
+
+/-- mirrors: ColumnIndex::select_batch_in_place — row ids (ascending) → doc ids, each document once -/
+def Index.selectBatch (idx : Index) (docStart : Nat) (ranks : List Nat) : List Nat :=
+  match idx with
+  | .empty _ => []
+  | .full => ranks
+  | .optional nn _ => ranks.map (fun k => nn.getD k 0)
+  | .multivalued nn _ starts =>
+    (ranks.foldl (mvStep starts) ([], rankSpec nn docStart, none)).1.map (fun k => nn.getD k 0)
+
+/-- mirrors: Column::get_docids_for_value_range -/
+def docidsForValueRange {V : Type} (key : V → Nat) (idx : Index) (vals : List V) (lo hi s e : Nat) : List Nat :=
+  let r := idx.docRangeToRows s e
+  idx.selectBatch s (rowsInRange key vals lo hi r.1 r.2)
+
 /-- mirrors: ColumnIndex::get_cardinality -/
 def Index.card : Index → Card
   | .empty 0 => .full
